@@ -1,6 +1,6 @@
 (* C12 - faithful model of the region of known finding C12/nofield-inherited-unpacker:
    no-field Discriminator through an Annotated field of a mixin holder (nailed builder,
-   unpack.py:447-465 + 485-510) over PLAIN dataclasses with single inheritance.
+   unpack.py:447-465 + 485-510) over PLAIN dataclasses (multiple inheritance: C3 method resolution order).
 
    The generated loop is
        for variant in variants:
@@ -18,17 +18,40 @@ From Coq Require Import List Arith Bool.
 From Verif Require Import Discr DiscrSpec.
 Import ListNotations.
 
-(* nearest class in the single-inheritance MRO of v (v first) that owns a compiled unpacker *)
-Fixpoint owner (fuel: nat) (cl: list cls) (compiled: list nat) (v: nat) : option nat :=
+(* Python's method resolution order (C3 linearisation) of class c inside the modelled forest: c, then the merge of the
+   parents' linearisations and the parent list (modelled; exercised by the correspondence on diamonds) *)
+Definition in_tail (h: nat) (seqs: list (list nat)) : bool :=
+  existsb (fun s => match s with [] => false | _ :: t => memb h t end) seqs.
+
+Fixpoint find_head (seqs all: list (list nat)) : option nat :=
+  match seqs with
+  | [] => None
+  | [] :: r => find_head r all
+  | (h :: _) :: r => if in_tail h all then find_head r all else Some h
+  end.
+
+Definition remove_head (h: nat) (seqs: list (list nat)) : list (list nat) :=
+  map (fun s => match s with x :: t => if Nat.eqb x h then t else s | [] => [] end) seqs.
+
+Fixpoint c3_merge (fuel: nat) (seqs: list (list nat)) : list nat :=
   match fuel with
-  | 0 => None
-  | S f =>
-      if memb v compiled then Some v
-      else match c_parents (nth v cl dummy_cls) with
-           | p :: _ => owner f cl compiled p
-           | [] => None
+  | 0 => []
+  | S f => match find_head seqs seqs with
+           | None => []
+           | Some h => h :: c3_merge f (remove_head h seqs)
            end
   end.
+
+Fixpoint mro (fuel: nat) (cl: list cls) (c: nat) : list nat :=
+  match fuel with
+  | 0 => [c]
+  | S f => let ps := c_parents (nth c cl dummy_cls) in
+           c :: c3_merge (S (length cl) * S (length cl)) (map (mro f cl) ps ++ [ps])
+  end.
+
+(* nearest class in the MRO of v (v first) that owns a compiled unpacker *)
+Definition owner (fuel: nat) (cl: list cls) (compiled: list nat) (v: nat) : option nat :=
+  find (fun m => memb m compiled) (mro fuel cl v).
 
 Definition subset (a b: list nat) : bool := forallb (fun x => memb x b) a.
 
@@ -110,3 +133,10 @@ Proof.
     + left. exists 1. reflexivity.
     + reflexivity.
 Qed.
+
+(* the C3 order of a diamond with an extra level: D(B, C), B(A), C(A), E(D, C) *)
+Example mro_diamond :
+  let cl := defs [Define [] [] [] [] false; Define [0] [] [] [] false; Define [0] [] [] [] false;
+                  Define [1; 2] [] [] [] false; Define [3; 2] [] [] [] false] in
+  mro 6 cl 3 = [3; 1; 2; 0] /\ mro 6 cl 4 = [4; 3; 1; 2; 0].
+Proof. vm_compute. split; reflexivity. Qed.
